@@ -225,6 +225,7 @@ func (f *Frame) execAlloc(x *ssa.Alloc) {
 	el := x.Type().Underlying().(*types.Pointer).Elem()
 	r := vc.allocRef(f.cur, orDefault(x.Comment, x.Name()), f.guard)
 	f.vals[x] = Val{r, "Int"}
+	f.notePrivate(x, r)
 	if el.String() == "bytes.Buffer" {
 		vc.regBuf()
 		vc.set(f.cur, "BufLen", store(vc.get(f.cur, "BufLen"), r, "0"))
